@@ -261,6 +261,23 @@ def sc_reshare_early(rng, k):
     return {"name": "reshare-early-%d" % k, "n": 3, "t": 2, "steps": steps}
 
 
+def sc_reshare_restart_split(rng, k):
+    """n=4, t=3, same members reshared; after the result is stored (TransitionNewGroup registered, transition 6
+    rounds ahead) two of the four nodes are restarted.  A restarted node loads the NEW group and share from disk
+    (storeDKGOutput overwrote the files at DKG completion) and uses them at once, the other two still use the old
+    ones until round tround-1 is stored: neither half reaches the threshold (known finding F41)."""
+    steps = [{"op": "startall"}] + _round_steps(0, "random", "r1") + _round_steps(10, "random", "r2")
+    steps.append({"op": "reshare", "nodes": [0, 1, 2, 3], "t": 3, "round": 9})
+    steps += _round_steps(20, "random", "r3")
+    for v in (0, 1):
+        steps += [{"op": "stop", "node": v}, {"op": "start", "node": v, "mode": "catchup"}]
+    for r in range(3, 11):
+        steps += _round_steps(10 * r, "random", "live-r%d" % (r + 1))
+        for c in (2, 4, 6, 8):
+            steps += [{"op": "advance", "node": -1, "to": 10 * r + c}, {"op": "deliverall", "order": "random"}]
+    return {"name": "reshare-restart-split-%d" % k, "n": 4, "t": 3, "steps": steps}
+
+
 def sc_reshare_late(rng, k):
     """the resharing result is registered (TransitionNewGroup) only after the node already stored the last
     pre-transition round, but before the transition time: the vault must still switch on the next stored
@@ -371,6 +388,7 @@ def scenarios_for(ctx, prop):
             out.append(sc_reshare(rng, sh, k))
         out.append(sc_reshare_early(rng, 0))
         out.append(sc_reshare_late(rng, 0))
+        out.append(sc_reshare_restart_split(rng, 0))
     if prop in ("C01", "C03"):
         out.append(sc_reshare_early(rng, 0))
     return out
